@@ -62,10 +62,3 @@ Definition insert_at (n : nat) (e : str * value) (c : container) : container :=
 (* replace the value of every entry with tag t (bad value, plain <-> group) *)
 Definition set_value (t : str) (v : value) (c : container) : container :=
   map (fun e => if str_eqb (fst e) t then (fst e, v) else e) c.
-(* exchange the entries at positions n and n+1 (member out of order) *)
-Fixpoint swap_at (n : nat) (c : container) : container :=
-  match n, c with
-  | O, a :: b :: r => b :: a :: r
-  | S n', a :: r => a :: swap_at n' r
-  | _, _ => c
-  end.
